@@ -114,7 +114,7 @@ func ValKey(seed string) cmted25519.PrivKey {
 type GenesisOpts struct {
 	InitialHeight int64
 	// Mutate lets a scenario edit the genesis state before InitChain.
-	Mutate func(app *simapp.SimApp, gs simapp.GenesisState)
+	Mutate    func(app *simapp.SimApp, gs simapp.GenesisState)
 	NAccounts int
 }
 
